@@ -122,7 +122,7 @@ Theorem header_decode_wire : forall w prev rest,
   wf_wire w ->
   exists offs,
   header_unmarshal_into prev (enc_header w ++ rest)
-  = Ok (mkHdrResult (hdr_of (extension_profile prev) w) (zlen (enc_header w)) offs rest).
+  = Ok (mkHdrResult (hdr_of 0 w) (zlen (enc_header w)) offs rest).
 Proof.
   intros w prev rest (Hv & Hpt & Hseq & Hts & Hssrc & Hcc & Hcs & Hblk & _ & _).
   pose proof (zlen_enc_header_fixed w) as Hlen.
@@ -163,7 +163,7 @@ Theorem packet_decode_wire : forall w prev,
   wf_wire w ->
   exists offs,
   packet_unmarshal_into prev (encode w)
-  = Ok (mkPktResult (meaning (extension_profile (hdr prev)) w) (zlen (enc_header w)) offs).
+  = Ok (mkPktResult (meaning 0 w) (zlen (enc_header w)) offs).
 Proof.
   intros w prev Hwf.
   destruct (header_decode_wire w (hdr prev) (w_payload w ++ enc_trailer w) Hwf) as (offs & Hh).
